@@ -130,6 +130,14 @@ MECH = [
   "-> 'X2(nn, 3, 2)', 'X2(1, 1, 1) + x2(NN, 2)'",
   "compare lower-cased names (or use symbol equality, which is case-insensitive)",
   ['LowerConstantArrayIndices:compile:rank-mismatch']),
+ ("resolve_vector_notation takes the index variable of *any* loop of the routine whose bounds equal the section range "
+  "(loop_map = {loop bounds: loop variable} over the whole body) without looking at the loops that enclose the statement: an "
+  "array assignment 'a(1:n:2) = ...' inside 'do i = m, 1, -1' becomes 'DO i=1,n,2' nested in the loop over i when some other "
+  "loop 'do i = 1, n, 2' exists in the routine (gfortran: Variable 'i' cannot be redefined inside loop; the frontend accepts it). "
+  "Behavioural side: C30 resolve:reuses-enclosing-loop-variable.",
+  W + "'resolve_vector_notation(enclosing'   (C41 seed 0 idx 82)",
+  "do not take an index from loop_map when its variable is the variable of a loop enclosing the statement (track enclosing loops in the transformer)",
+  ['resolve_vector_notation:compile:enclosing-loop-variable-redefined']),
  # ---- gated slices
  ("rename_variables only visits routine.ir of the routine itself: uses of a renamed argument / variable in its internal "
   "procedures (host association) keep the old name, which is no longer declared anywhere.",
